@@ -21,10 +21,12 @@ import (
 
 func init() { Registry["C20"] = c20 }
 
-var c20msgs = []error{errors.New("m1"), errors.New("m2"), fmt.Errorf("m%d", 1), nil}
+var c20msgs = []error{errors.New("m1"), errors.New("m2"), fmt.Errorf("m%d", 1), nil, errors.New("m3"), errors.New("m4"), errors.New("m5")}
 
 // argument lists over message indices (3 = nil)
-var c20args = [][]int{{0}, {1}, {2}, {3}, {0, 1}, {1, 0}, {0, 2}, {3, 1}, {1, 3, 1}}
+// the three-message list leaves spare capacity behind (append grows 1, 2, 4): the situation in which
+// two results sharing a backing array overwrite each other's next message
+var c20args = [][]int{{0}, {1}, {2}, {3}, {0, 1}, {1, 0}, {0, 2}, {3, 1}, {1, 3, 1}, {5}, {6}, {0, 1, 4}}
 
 type c20op struct {
 	K       string // adde addw merge mergee mergew inc reborrow mergenil merge2
@@ -321,7 +323,7 @@ func c20nilQueries() string {
 }
 
 func c20(c *hx.Ctx) int {
-	depth := 5
+	depth := 4
 	if !c.Quick() {
 		depth = 6
 	}
@@ -425,7 +427,7 @@ func c20(c *hx.Ctx) int {
 		"rule": "BFS over op sequences on 3 result slots (plain, plain, pooled); state = model contents + aliasing fingerprint of the real objects; every transition executed on the real Result type and compared with an ordered-set model",
 	}
 	return hx.Finish(c, "model_checking", rep, cov, []string{
-		"messages range over {m1, m2, a second error value with text m1, nil}",
+		"messages range over {m1..m5, a second error value with text m1, nil}; argument lists of 1-3 messages",
 		"a pooled result is not used after the merge that redeemed it (caller contract), it is re-borrowed instead",
 	})
 }
